@@ -280,6 +280,7 @@ Definition eSys (y : sys Z) : tree :=
                                        eB (match spcv v with SExit => true | _ => false end); eZs (scache v)]) (sav y);
         eB (all_workers_exited y); eB (all_exited y)].
 
+(* every event's LAST element is the observed length of the worker's detections list after the turn *)
 (* 80: [mn mx ms imin ims mode verdicts bszs nobs with_saver cache_size events]
        -> result [accepted, sys, schedule] *)
 Definition api_monitor (a : tree) : tree :=
@@ -288,9 +289,9 @@ Definition api_monitor (a : tree) : tree :=
        (with_cfg a (fun c =>
           let bszs := tZs (arg a 7) in
           let bsz := fun i : Z => nth (Z.to_nat i) bszs 0 in
-          Ok (monitor c bsz (tZ (arg a 10)) Z.eqb
+          Ok (monitor_obs c bsz (tZ (arg a 10)) Z.eqb
                       (init_sys (number (tBs (arg a 6))) (tN (arg a 8)) (tB (arg a 9)) init_st)
-                      (map dEvent (tL (arg a 11)))))).
+                      (map (fun t => (dEvent t, tZ (arg t (length (tL t) - 1)))) (tL (arg a 11)))))).
 
 (* 81: [cfg..., verdicts, bszs, nobs, with_saver, cache_size, schedule(as printed by 80)] -> sys (exec of a schedule) *)
 Definition dChoice (t : tree) : choice :=
